@@ -452,9 +452,16 @@ def run_rename(case, res):
     if not np.array_equal(v0, v1):
         res.violation(f'{mode} renaming changed the value: {E} -> {R}')
         return
-    if len(tin) != len(tout):
+    merged_terms = False
+    if len(tout) > len(tin):
         res.violation(f'{mode} renaming changed the number of terms')
         return
+    if len(tout) < len(tin):
+        # two alpha-equivalent input terms (2 d^{i1}_{i1} - 2/3 d^j_j) become the
+        # same term after the renaming and are added up by sympy: the value was
+        # compared above, the per-term pattern comparison below is skipped
+        merged_terms = True
+        res.count('alpha_equivalent_input_terms_added_up')
     # per term: targets untouched, injective, names
     def idx_of(t):
         return tm.count_indices(t)
@@ -491,6 +498,12 @@ def run_rename(case, res):
     # no merging: same multiset of index-count patterns per term
     pat_in = sorted(sorted(idx_of(t).values()) for t in tin)
     pat_out = sorted(sorted(idx_of(t).values()) for t in tout)
+    if merged_terms:
+        pat_in = [p_ for p_ in pat_in if p_ in pat_out]
+        pat_out = [p_ for p_ in pat_out if p_ in pat_in]
+        if not all(p_ in pat_in for p_ in pat_out):
+            res.violation(f'{mode} renaming merged or split indices: {E} -> {R}')
+        return
     if pat_in != pat_out:
         res.violation(f'{mode} renaming merged or split indices: {E} -> {R}')
 
